@@ -36,3 +36,9 @@ Proof.
   intros fuel n secret label seed H. unfold prf12, PRF_spec.
   apply (pHash_is_P_hash hmac_sm3 32); [lia|exact hmac_sm3_out_length|exact H].
 Qed.
+
+(* the decoder's PRF is the specification *)
+From GmsmVerif Require Import Agree.WireSpec.
+Lemma gm_prf_is_spec : forall n secret label seed,
+  gm_prf n secret label seed = PRF_spec hmac_sm3 n secret label seed.
+Proof. intros. unfold gm_prf. rewrite prf12_sm3_is_P_SM3 by lia. reflexivity. Qed.
